@@ -48,14 +48,14 @@ complete = [
  ("fd_complete_rle3_raw2_ck_frag1", "RLE(3)+raw(2)+checksum, source delivers 1 byte per read", "quick"),
  ("fd_complete_raw2_raw0", "raw(2)+empty last raw block", "rot3"),
  ("fd_complete_raw4_raw3_raw0_ck_frag2", "raw(4)+raw(3)+empty last block+checksum, source delivers 2 bytes per read", "rot3"),
- ("fd_complete_wd_rle3_raw2", "window descriptor 0 (1 KiB), RLE(3)+raw(2), no content size", "quick"),
+ ("fd_complete_wd_rle3_raw2", "window descriptor 0 (1 KiB), RLE(3)+raw(2), no content size", "rot3"),
  ("fd_complete_lying_ck", "single-segment size 2 but 8 bytes of content: raw(3)+RLE(3)+raw(2)+checksum (ring grows)", "quick"),
 ]
 for n, d, t in complete:
     add(n, ["C01", "C10"] if n in ("fd_complete_rle3_raw2_ck_frag1", "fd_complete_raw2_raw0", "fd_complete_raw4_raw3_raw0_ck_frag2") else ["C01"], t, "skeleton: %s; every payload/trailer byte and two bytes following the frame symbolic; strategy All, one read" % d)
 
-cuts_quick = ["05_all", "09_obo", "12_obo", "15_all", "18_all", "19_obo"]
-cuts_rot = ["06_all", "08_all", "10_obo", "10_all", "13_all", "14_obo", "15_obo", "17_obo"]
+cuts_quick = ["05_all", "09_obo", "12_obo", "15_all", "19_obo"]
+cuts_rot = ["06_all", "08_all", "10_obo", "10_all", "13_all", "14_obo", "15_obo", "17_obo", "18_all"]
 cuts_thorough = ["00_all", "03_all", "04_all", "07_obo", "11_all", "16_all", "16_obo", "18_obo"]
 for c in cuts_quick + cuts_rot + cuts_thorough:
     cut, sched = c.split("_")
@@ -75,7 +75,7 @@ progs = [
  ("fd_prog_a_all_sink_split", "A", "1", "Blocks(2) Read(3) All Sink(takes 1, Ok(0), would take 6 more) Sink(1, WouldBlock, would take 2 more) Read(1) - drained data wraps in the ring", "quick"),
  ("fd_prog_a_bytes6_collect_read", "A", "2", "Bytes(6) collect Read(8) Blocks(1) collect", "rot3"),
  ("fd_prog_a_blocks1_sink0", "A", "inf", "Blocks(1) Sink(0) Blocks(1) Sink(8) Sink(8)", "thorough"),
- ("fd_prog_b_blocks1_read_small", "B", "inf", "Blocks(1) Read(3) Blocks(1) Read(3) Blocks(1) Read(1)", "quick"),
+ ("fd_prog_b_blocks1_read_small", "B", "inf", "Blocks(1) Read(3) Blocks(1) Read(3) Blocks(1) Read(1)", "rot3"),
  ("fd_prog_b_bytes5_collect", "B", "4", "Bytes(5) collect Bytes(5) collect", "rot3"),
  ("fd_prog_b_all_sink_then_read", "B", "inf", "All Sink(3 then WouldBlock) Read(2) Sink(8)", "rot3"),
  ("fd_prog_b_blocks2_then_all", "B", "5", "Blocks(2) collect All", "thorough"),
@@ -91,7 +91,7 @@ for n, sk, chunk, prog, t in progs:
 
 reuse = [
  ("fd_reuse_complete_drained", "A = RLE(3)+raw(2)+ck completed and drained; B = raw(4)+ck", "rot2"),
- ("fd_reuse_complete_undrained", "A completed, output left in the decoder; B = raw(1)", "quick"),
+ ("fd_reuse_complete_undrained", "A completed, output left in the decoder; B = raw(1)", "rot2"),
  ("fd_reuse_abandoned", "A (lying window, 3 blocks) abandoned after its first block; B = RLE(3)+ck", "quick"),
  ("fd_reuse_truncated_block", "A truncated inside its second block (error ignored); B = RLE(3)+raw(2)", "quick"),
  ("fd_reuse_truncated_checksum", "A truncated inside its checksum; B = raw(2)+empty last", "rot2"),
